@@ -53,7 +53,8 @@ class PlanApp(object):
                                     detail=shape.get("detail", "D%d" % i), fault=shape.get("fault"),
                                     headers=odict((str(k), str(v)) for k, v in shape["eheaders"]) if shape.get("eheaders") else None)
         if kind in ("fixed", "empty"):
-            headers.append(("Content-Length", str(sum(len(p) for p in pieces))))
+            # "declared": a response that is bodiless by rule (HEAD, 304) may still declare the length of the entity
+            headers.append(("Content-Length", str(shape.get("declared", sum(len(p) for p in pieces)))))
         if not any(k.lower() == "content-type" for k, v in headers):
             headers.append(("Content-Type", "text/plain"))
         start(shape.get("status", "200 OK"), headers)
